@@ -45,6 +45,13 @@ class Runner:
         self.calls = []
         self.armed = {}
         self.touched = set()
+        self.removed_at = {}      # key -> number of calls made when it was removed in-run
+        self.readded = set()
+        # SystemAction.run re-checks the live registry before every action
+        # ("May be removed by a previous action"): an action removed before
+        # its turn must not run.  ServerAction.run / NotificationCenter.notify
+        # iterate a snapshot without re-check; left open there (counted).
+        self.strict_removed = label in ('SystemAction', 'CmdPeriod')
         self.seq = 0
         self.feat = {'runs': 0, 'removes': 0, 'remove_then_run': False,
                      'max_actions': 0, 'in_run_ops': 0}
@@ -73,6 +80,21 @@ class Runner:
         """expected: {key: entry}; self.calls: [(key, payload)];
         bucket_of(key) -> Bucket for order constraints."""
         acc = self.acc
+        for key, idx in self.removed_at.items():
+            if key in self.readded:
+                continue
+            pending = not any(k == key for k, _ in self.calls[:idx])
+            if pending:
+                acc.count('registry_removed_before_its_turn')
+            late = [i for i, (k, _) in enumerate(self.calls) if k == key and i >= idx]
+            if late and self.strict_removed:
+                self.violation('ran-action-removed-earlier-in-same-run', key=repr(key),
+                               removed_after_calls=idx,
+                               calls=[repr(k) for k, _ in self.calls])
+            elif late:
+                acc.count('registry_open/ran-although-removed-earlier-in-run')
+            elif pending:
+                acc.count('registry_removed_before_its_turn_did_not_run')
         counts = {}
         for key, payload in self.calls:
             counts[key] = counts.get(key, 0) + 1
@@ -145,19 +167,26 @@ def run_system(acc, rng, case, base, label, with_once):
             B.add(aid, R.tick(), args=tuple(args), kwargs=dict(kwargs), once=False)
             if inside:
                 R.touched.add(aid)
+                R.readded.add(aid)
         elif name == 'do_once':
             _, aid, args, kwargs = op
             f = funcs.setdefault(aid, make(aid))
             cls.do_once(f, *args, **kwargs)
             B.add(aid, R.tick(), args=tuple(args), kwargs=dict(kwargs), once=True)
         elif name == 'remove':
+            was = op[1] in B.entries
             cls.remove(funcs[op[1]])
             B.remove(op[1])
             R.feat['removes'] += 1
             R._removed_since_run = True
-            if inside:
+            if inside and was:
                 R.touched.add(op[1])
+                R.removed_at.setdefault(op[1], len(R.calls))
         elif name == 'remove_all':
+            if inside:
+                for k in B.entries:
+                    R.touched.add(k)
+                    R.removed_at.setdefault(k, len(R.calls))
             cls.remove_all()
             B.entries.clear()
             R._removed_since_run = True
@@ -169,7 +198,7 @@ def run_system(acc, rng, case, base, label, with_once):
 
     def run():
         R.log.append(['run'])
-        R.calls.clear(); R.touched.clear()
+        R.calls.clear(); R.touched.clear(); R.removed_at.clear(); R.readded.clear()
         expected = dict(B.entries)
         cls.run()
         R.compare(expected, lambda k: B, check_args)
@@ -202,12 +231,24 @@ def run_system(acc, rng, case, base, label, with_once):
                 R.guarded('remove', lambda: apply(('remove', aid)))
             elif r < 0.61:
                 R.guarded('remove_all', lambda: apply(('remove_all',)))
-            elif r < 0.72 and len(live) >= 2:
-                holder, target = rng.sample(live, 2)
-                if rng.random() < 0.7:
-                    R.armed[holder] = ('remove', target)
-                else:
+            elif r < 0.78 and len(live) >= 2:
+                # an action that, while it runs, removes a later / an earlier
+                # action / itself / everything, or adds a new one
+                i = rng.randrange(len(live))
+                holder = live[i]
+                v = rng.random()
+                if v < 0.4 and i + 1 < len(live):
+                    R.armed[holder] = ('remove', rng.choice(live[i + 1:]))
+                elif v < 0.55 and i > 0:
+                    R.armed[holder] = ('remove', rng.choice(live[:i]))
+                elif v < 0.68:
+                    R.armed[holder] = ('remove', holder)
+                elif v < 0.76:
+                    R.armed[holder] = ('remove_all',)
+                elif v < 0.9:
                     R.armed[holder] = ('add', next_aid, [], {}); next_aid += 1
+                else:
+                    R.armed[holder] = ('remove', rng.choice(live))
                 R.log.append(['arm', holder, list(R.armed[holder])])
             else:
                 R.guarded('run', run)
@@ -273,6 +314,7 @@ def run_server(acc, rng, case):
             R._removed_since_run = True
             if inside:
                 R.touched.add(key)
+                R.removed_at.setdefault(key, len(R.calls))
         elif name == 'remove_server':
             cls.remove_server(op[1])
             buckets.pop(bk(op[1]), None)
@@ -284,7 +326,7 @@ def run_server(acc, rng, case):
 
     def run(server):
         R.log.append(['run', repr(server)])
-        R.calls.clear(); R.touched.clear()
+        R.calls.clear(); R.touched.clear(); R.removed_at.clear(); R.readded.clear()
         use = [bk(server)]
         if server is Server.default:
             use.append('default')
@@ -327,8 +369,10 @@ def run_server(acc, rng, case):
                                                           rng.choice(bucket_keys))))
             elif r < 0.63:
                 R.guarded('remove_all', lambda: apply(('remove_all',)))
-            elif r < 0.72 and len(allkeys) >= 2:
+            elif r < 0.78 and len(allkeys) >= 2:
                 holder, target = rng.sample(allkeys, 2)
+                if rng.random() < 0.15:
+                    target = holder
                 b = next(x for x in bucket_keys if bk(x) == target[0])
                 if rng.random() < 0.7:
                     R.armed[holder] = ('remove', b, target[1])
@@ -409,7 +453,7 @@ def run_notify(acc, rng, case):
 
     def notify(o, m, args):
         R.log.append(['notify', repr(o), m, list(args)])
-        R.calls.clear(); R.touched.clear()
+        R.calls.clear(); R.touched.clear(); R.removed_at.clear(); R.readded.clear()
         b = regs.get((id(o), m))
         expected = dict(b.entries) if b else {}
 
